@@ -106,9 +106,18 @@ func c12Build(in c12Input) ([]mockq.Rec, refmodel.Expr) {
 	case "v-lab":
 		return data, &refmodel.Bin{Op: in.Op, L: &refmodel.Vec{V: in.S}, R: l}
 	case "vl": // vector(n) against a literal, on every step of a range query
-		return data, &refmodel.Bin{Op: in.Op, L: &refmodel.Vec{V: in.S}, R: &refmodel.Lit{V: 2}}
+		return data, &refmodel.Bin{Op: in.Op, L: &refmodel.Vec{V: in.S}, R: &refmodel.Lit{V: 2}, Bool: in.Bool}
 	case "lv":
-		return data, &refmodel.Bin{Op: in.Op, L: &refmodel.Lit{V: 2}, R: &refmodel.Vec{V: in.S}}
+		return data, &refmodel.Bin{Op: in.Op, L: &refmodel.Lit{V: 2}, R: &refmodel.Vec{V: in.S}, Bool: in.Bool}
+	case "setset": // both operands are set operations themselves (each may come out empty, or as one of its own operands)
+		inner := [][2]string{{"or", "or"}, {"or", "unless"}, {"unless", "or"}, {"and", "or"}, {"or", "and"}}[int(in.S)%5]
+		lo := &refmodel.Bin{Op: inner[0], L: l, R: &refmodel.Vec{V: 0}}
+		ro := &refmodel.Bin{Op: inner[1], L: r, R: &refmodel.Vec{V: 7}}
+		if int(in.S) >= 5 {
+			lo = &refmodel.Bin{Op: inner[0], L: l, R: r}
+			ro = &refmodel.Bin{Op: inner[1], L: r, R: l}
+		}
+		return data, &refmodel.Bin{Op: in.Op, L: lo, R: ro}
 	case "near": // operands that differ by less than any sensible tolerance, but differ: comparisons are exact
 		pairs := [][2]refmodel.Expr{
 			{&refmodel.Bin{Op: "+", L: &refmodel.Vec{V: 0.1}, R: &refmodel.Vec{V: 0.2}}, &refmodel.Vec{V: 0.3}},
@@ -296,7 +305,7 @@ func c12Run(r *vkit.Run) {
 				// the bool modifier: each form alone under the usual tolerance, and as a pair (see c12CheckBoolPair)
 				for _, op := range []string{"==", "!=", ">", ">=", "<", "<="} {
 					for _, s := range []float64{2, 0.5} {
-						for _, kind := range []string{"vs", "sv", "vv"} {
+						for _, kind := range []string{"vs", "sv", "vv", "vl", "lv"} {
 							in := c12Input{L: l, R: rr, Op: op, Kind: kind, S: s, RVar: 2, Range: rg}
 							if c12CheckBoolPair(r, in) {
 								nontrivial = true
@@ -360,6 +369,11 @@ func c12Run(r *vkit.Run) {
 					for _, s := range []float64{0, 3} {
 						c12Check(r, c12Input{L: l, R: rr, Op: op, Kind: "wn", S: s, Range: rg})
 						c12Check(r, c12Input{L: l, R: rr, Op: op, Kind: "nw", S: s, Range: rg})
+					}
+				}
+				for _, op := range all {
+					for k := 0; k < 10; k++ {
+						c12Check(r, c12Input{L: l, R: rr, Op: op, Kind: "setset", S: float64(k), Range: rg})
 					}
 				}
 				// operands in one, two and three redundant pairs of parentheses
